@@ -96,6 +96,17 @@ impl Sys for Sys10 {
         if d.size() != (lw, lh) || d.bbox() != (0, 0, lw, lh) {
             return (key, Some(format!("set_orientation/size|size()={:?} bbox={:?}, specification {lw}x{lh}", d.size(), d.bbox())));
         }
+        if cfg.model == ModelId::Fixed43 {
+            // hard-wired panel: init programmed 0x00 whatever the options; set_orientation may only touch bits 7..5
+            let want = madctl_spec(false, o, 0);
+            if !hist.is_empty() && rig.ctl.madctl != want {
+                return (key, Some(format!(
+                    "set_orientation/foreign-bits|model programmed MADCTL 00 at init; after set_orientation({o}) the device has {:02x}, only the orientation bits may change (expected {want:02x})",
+                    rig.ctl.madctl
+                )));
+            }
+            return (key, None);
+        }
         let want = madctl_spec(cfg.bgr, o, cfg.refresh);
         if rig.ctl.madctl != want {
             return (key, Some(format!("set_orientation/madctl|device MADCTL {:02x}, specification {want:02x} (colour/refresh bits must be preserved)", rig.ctl.madctl)));
@@ -174,12 +185,16 @@ pub fn roots(quick: bool) -> Vec<Cfg> {
     let mut c = Cfg::tiny(4, 3, true, Transport::RecSerial, (3, 2, 1, 0), 6);
     c.refresh = 1;
     v.push(c);
+    // an external model that legitimately returns the all-zero address mode, with non-default builder options
+    for (o, bgr, refresh) in [(0u8, true, 3u8), (3, true, 1), (6, false, 2)] {
+        v.push(Cfg { model: ModelId::Fixed43, tr: Transport::RecSerial, win: Some((3, 2, 1, 0)), orient: o, bgr, invert: false, refresh, rst: false, flags: 0 });
+    }
     // every built-in model (its own init decides the cached address mode), non-default colour / refresh order
     for (i, info) in BUILTINS.iter().enumerate() {
         let (fw, fh) = info.fb;
         let tr = if info.supports[0] { Transport::RecSerial } else { Transport::RecPar8 };
         for (o, refresh) in [(0u8, 1u8), (5, 2), (2, 3)] {
-            v.push(Cfg { model: ModelId::Builtin(i as u8), tr, win: Some((6, 5, fw - 9, 3)), orient: o, bgr: true, invert: false, refresh, rst: false });
+            v.push(Cfg { model: ModelId::Builtin(i as u8), tr, win: Some((6, 5, fw - 9, 3)), orient: o, bgr: true, invert: false, refresh, rst: false, flags: 0 });
         }
     }
     v
